@@ -19,6 +19,7 @@ import (
 	"os"
 	"strings"
 	"sync"
+	"syscall"
 	"testing"
 	"time"
 
@@ -205,6 +206,32 @@ func (t *v16Target) count() int {
 	t.mu.Lock()
 	defer t.mu.Unlock()
 	return len(t.recs)
+}
+
+// bind (without listening) a TCP socket to 127.0.0.1:p and [::1]:p: connections are refused and
+// nobody else can bind the port
+func v16ReservePort(p int) (release func(), err error) {
+	fd4, err := syscall.Socket(syscall.AF_INET, syscall.SOCK_STREAM, 0)
+	if err != nil {
+		return nil, err
+	}
+	if err = syscall.Bind(fd4, &syscall.SockaddrInet4{Port: p, Addr: [4]byte{127, 0, 0, 1}}); err != nil {
+		syscall.Close(fd4)
+		return nil, err
+	}
+	fd6, err := syscall.Socket(syscall.AF_INET6, syscall.SOCK_STREAM, 0)
+	if err != nil {
+		syscall.Close(fd4)
+		return nil, err
+	}
+	sa6 := &syscall.SockaddrInet6{Port: p}
+	sa6.Addr[15] = 1
+	if err = syscall.Bind(fd6, sa6); err != nil {
+		syscall.Close(fd4)
+		syscall.Close(fd6)
+		return nil, err
+	}
+	return func() { syscall.Close(fd4); syscall.Close(fd6) }, nil
 }
 
 // what dialling addr does right now: 0 ok (IPv4 local end), 1 ok (IPv6 local end), 2 refused, -1 something else
@@ -903,6 +930,12 @@ func (e *v16Engine) session(cfg v16Cfg, h *Socks5Handler, sc v16Script) {
 		sp.reqComplete, sp.reqMalformed, sp.cmd = sq.reqComplete, sq.reqMalformed, sq.cmd
 	}
 	if rep == 0 && port != 0 && !o.dialled {
+		if sp.reqComplete && sp.cmd == 1 {
+			// a CONNECT that succeeded although our target saw nothing: the destination port is served
+			// by something that is not ours (another process took it); nothing can be attributed
+			e.out.Stat("skipped_connect_answered_by_foreign_listener", sc.name)
+			return
+		}
 		o.listened = true
 	}
 	if o.udpRelay {
@@ -1035,19 +1068,31 @@ func TestVerifC16(t *testing.T) {
 	os.Unsetenv("VERIF_C16_NOPE")
 	seed := vSeed()
 	r := vNewRng(seed)
-	base := 21000 + int((uint64(seed)*7919+16)%20000)
+	base := 21000 + int((uint64(seed)*7919+16)%10000)
+	if os.Getenv("VERIF_PROP") != "C16" { // the same test serves C04: keep concurrent runs apart
+		base -= 11000
+	}
 	tgt, err := v16Listen(base)
 	if err != nil {
 		t.Fatal(err)
 	}
 	defer tgt.l4.Close()
 	defer tgt.l6.Close()
+	// a port that refuses connections for the whole run: bound on both loopback addresses but never
+	// listened on, so that no other process (a concurrent run of this engine, another check) can
+	// start listening there in between
 	closed := 0
 	for p := tgt.port + 1; p < tgt.port+500; p++ {
+		release, err := v16ReservePort(p)
+		if err != nil {
+			continue
+		}
 		if v16ProbeDial(fmt.Sprintf("127.0.0.1:%d", p)) == 2 && v16ProbeDial(fmt.Sprintf("[::1]:%d", p)) == 2 {
 			closed = p
+			defer release()
 			break
 		}
+		release()
 	}
 	e := &v16Engine{client: v16Clients()[0], out: out, r: r, tgt: tgt, gen: &v16Gen{r: r, port: tgt.port, closed: closed}, dialMem: map[string]int{}, resMem: map[string]string{}}
 	// what net.ListenUDP("udp", nil) gives here
